@@ -10,8 +10,10 @@
 #include <etl/_mdspan/layout.hpp>
 #include <etl/_mdspan/layout_mapping_alike.hpp>
 #include <etl/_span/span.hpp>
+#include <etl/_type_traits/is_constructible.hpp>
 #include <etl/_type_traits/is_convertible.hpp>
 #include <etl/_type_traits/is_nothrow_constructible.hpp>
+#include <etl/_type_traits/is_same.hpp>
 #include <etl/_utility/as_const.hpp>
 #include <etl/_utility/cmp_not_equal.hpp>
 #include <etl/_utility/index_sequence.hpp>
@@ -52,7 +54,19 @@ public:
     }
 
     template <typename StridedLayoutMapping>
-    constexpr explicit(false /* see description */) mapping(StridedLayoutMapping const&) noexcept;
+        requires(detail::layout_mapping_alike<StridedLayoutMapping>
+                 and is_constructible_v<extents_type, typename StridedLayoutMapping::extents_type>
+                 and StridedLayoutMapping::is_always_unique() and StridedLayoutMapping::is_always_strided())
+    constexpr explicit(not(
+        is_convertible_v<typename StridedLayoutMapping::extents_type, extents_type>
+        and (is_same_v<typename StridedLayoutMapping::layout_type, layout_left>
+             or is_same_v<typename StridedLayoutMapping::layout_type, layout_right>
+             or is_same_v<typename StridedLayoutMapping::layout_type, layout_stride>)
+    )) mapping(StridedLayoutMapping const& other) noexcept
+        : _extents(other.extents())
+        , _strides(strides_of(other))
+    {
+    }
 
     constexpr auto operator=(mapping const&) noexcept -> mapping& = default;
 
@@ -144,6 +158,18 @@ private:
                 return static_cast<size_t>(m(((void)Is, typename OtherMapping::extents_type::index_type(0))...));
             }(make_index_sequence<rank>());
         }
+    }
+
+    template <typename OtherMapping>
+    [[nodiscard]] static constexpr auto strides_of(OtherMapping const& m) noexcept -> array<index_type, rank>
+    {
+        auto result = array<index_type, rank>{};
+        if constexpr (rank > 0) {
+            for (rank_type r{0}; r < rank; ++r) {
+                result[r] = static_cast<index_type>(m.stride(r));
+            }
+        }
+        return result;
     }
 
     TETL_NO_UNIQUE_ADDRESS extents_type _extents{};
